@@ -53,27 +53,66 @@ func (p *pkgInfo) writeSet(funcs map[string]bool) []string {
 					origin[p.info.Defs[n]] = "param"
 				}
 			}
-			classify := func(e ast.Expr) string {
+			if fd.Type.Results != nil {
+				for _, fl := range fd.Type.Results.List {
+					for _, n := range fl.Names {
+						origin[p.info.Defs[n]] = "fresh" // named results are owned by the call
+					}
+				}
+			}
+			// originOf: where the storage an expression designates comes from. A
+			// local initialised from (a part of) something inherits its origin, so
+			// `out := a.Values; out[i] = x` is a write through the receiver.
+			var originOf func(e ast.Expr) string
+			originOf = func(e ast.Expr) string {
 				switch v := e.(type) {
 				case *ast.CallExpr:
-					if id, ok := v.Fun.(*ast.Ident); ok && (id.Name == "make" || id.Name == "new") {
-						return "fresh"
-					}
-					if id, ok := v.Fun.(*ast.Ident); ok && id.Name == "append" {
-						return "local"
-					}
-					return "fresh"
-				case *ast.CompositeLit:
-					return "fresh"
-				case *ast.UnaryExpr:
-					if v.Op == token.AND {
-						if _, ok := v.X.(*ast.CompositeLit); ok {
+					if id, ok := v.Fun.(*ast.Ident); ok {
+						switch id.Name {
+						case "make", "new":
 							return "fresh"
+						case "append":
+							if len(v.Args) > 0 {
+								return originOf(v.Args[0])
+							}
 						}
 					}
+					return "fresh" // a call result
+				case *ast.CompositeLit, *ast.BasicLit, *ast.FuncLit:
+					return "fresh"
+				case *ast.UnaryExpr:
+					return originOf(v.X)
+				case *ast.StarExpr:
+					return originOf(v.X)
+				case *ast.ParenExpr:
+					return originOf(v.X)
+				case *ast.IndexExpr:
+					return originOf(v.X)
+				case *ast.SliceExpr:
+					return originOf(v.X)
+				case *ast.SelectorExpr:
+					return originOf(v.X)
+				case *ast.TypeAssertExpr:
+					return originOf(v.X)
+				case *ast.Ident:
+					if v.Name == "nil" {
+						return "fresh"
+					}
+					obj := p.info.Uses[v]
+					if obj == nil {
+						obj = p.info.Defs[v]
+					}
+					if o, ok := origin[obj]; ok {
+						return o
+					}
+					if obj != nil && obj.Parent() == p.pkg.Scope() {
+						return "global"
+					}
+					return "fresh" // constants, builtins
 				}
 				return "local"
 			}
+			classify := originOf
 			ast.Inspect(fd.Body, func(n ast.Node) bool {
 				switch v := n.(type) {
 				case *ast.AssignStmt:
@@ -105,15 +144,41 @@ func (p *pkgInfo) writeSet(funcs map[string]bool) []string {
 				}
 				return true
 			})
+			// rootOf: the origin of the root variable of a write target, and whether
+			// the written storage is reached through an indirection (slice or map
+			// element, pointer dereference - explicit or implied by a selector on a
+			// pointer). Without an indirection the write only changes the local
+			// variable itself (e.g. a field of a struct copy) and is not a write
+			// into anything the caller can see, unless the root is a package-level
+			// variable.
 			rootOf := func(e ast.Expr) (string, bool) {
 				through := false
+				under := func(x ast.Expr) types.Type {
+					if t := p.info.TypeOf(x); t != nil {
+						return t.Underlying()
+					}
+					return nil
+				}
 				for {
 					switch v := e.(type) {
 					case *ast.IndexExpr:
-						e, through = v.X, true
+						switch t := under(v.X).(type) {
+						case *types.Slice, *types.Map:
+							through = true
+						case *types.Pointer:
+							through = true
+							_ = t
+						case nil:
+							through = true
+						}
+						e = v.X
 						continue
 					case *ast.SelectorExpr:
-						e, through = v.X, true
+						switch under(v.X).(type) {
+						case *types.Pointer, nil:
+							through = true
+						}
+						e = v.X
 						continue
 					case *ast.StarExpr:
 						e, through = v.X, true
@@ -129,11 +194,11 @@ func (p *pkgInfo) writeSet(funcs map[string]bool) []string {
 						if obj == nil {
 							obj = p.info.Defs[v]
 						}
+						if obj != nil && obj.Parent() == p.pkg.Scope() {
+							return "global", true
+						}
 						if o, ok := origin[obj]; ok {
 							return o, through
-						}
-						if obj != nil && obj.Parent() == p.pkg.Scope() {
-							return "global", through
 						}
 						return "local", through
 					}
@@ -241,4 +306,61 @@ func (p *pkgInfo) funcNames() []string {
 	}
 	sort.Strings(out)
 	return out
+}
+
+// reachable returns the functions of the package reachable from the roots by
+// calls or references to package-level functions and methods (Recv.Name keys).
+func (p *pkgInfo) reachable(roots []string) map[string]bool {
+	key := func(fn *types.Func) string {
+		sig, _ := fn.Type().(*types.Signature)
+		if sig != nil && sig.Recv() != nil {
+			t := sig.Recv().Type()
+			if pt, ok := t.(*types.Pointer); ok {
+				t = pt.Elem()
+			}
+			if n, ok := t.(*types.Named); ok {
+				return n.Obj().Name() + "." + fn.Name()
+			}
+		}
+		return fn.Name()
+	}
+	edges := map[string][]string{}
+	for _, f := range p.files {
+		for _, d := range f.Decls {
+			fd, ok := d.(*ast.FuncDecl)
+			if !ok || fd.Body == nil {
+				continue
+			}
+			fobj, _ := p.info.Defs[fd.Name].(*types.Func)
+			if fobj == nil {
+				continue
+			}
+			from := key(fobj)
+			ast.Inspect(fd.Body, func(n ast.Node) bool {
+				id, ok := n.(*ast.Ident)
+				if !ok {
+					return true
+				}
+				if callee, ok := p.info.Uses[id].(*types.Func); ok && callee.Pkg() == p.pkg {
+					edges[from] = append(edges[from], key(callee))
+				}
+				return true
+			})
+		}
+	}
+	seen := map[string]bool{}
+	var visit func(n string)
+	visit = func(n string) {
+		if seen[n] {
+			return
+		}
+		seen[n] = true
+		for _, m := range edges[n] {
+			visit(m)
+		}
+	}
+	for _, r := range roots {
+		visit(r)
+	}
+	return seen
 }
